@@ -845,7 +845,7 @@ def run(ctx):
             with ctx.guard(60):
                 check_climnet(ctx, ES, k)
     # ---- B2. more random event matrices while time is left ----------------
-    cap = 40000 if ctx.thorough else 4000
+    cap = 120000 if ctx.thorough else 4000
     k = bmin
     while ctx.time_left() > 0 and k < cap:
         k += 1
